@@ -322,6 +322,13 @@ theorem Halts.poll {N : Nat} {c c' : Conn} {r : PRes} (h : Halts N c c' r) {F : 
   rw [hs.poll, pollConn_succ, hh]
   rfl
 
+/-- the fuel `runTask` passes is at least `100000` -/
+theorem connFuel_ge (c : Conn) : 100000 ≤ connFuel c := by unfold connFuel; omega
+
+/-- … so a poll that halts within `100000` transitions is what `runTask`'s `pollConn` call returns -/
+theorem Halts.pollT {N : Nat} {c c' : Conn} {r : PRes} (h : Halts N c c' r) (hF : N ≤ 100000) :
+    pollConn (connFuel c) c = (c', r) := h.poll (Nat.le_trans hF (connFuel_ge c))
+
 theorem Halts.of_steps {k N : Nat} {c c1 c' : Conn} {r : PRes} (hs : Steps k c c1)
     (h : Halts N c1 c' r) : Halts (k + N) c c' r := by
   obtain ⟨n, c2, hn, hs2, hh⟩ := h
